@@ -9,6 +9,7 @@ import (
 
 	"nhooyr.io/websocket"
 	"verif/fw"
+	"verif/refws/hsclient"
 )
 
 // C14, part isolation: the parameters agreed on one connection are not
@@ -144,4 +145,135 @@ func c14IsoRegister(prop string) {
 			c14IsoOneP(c, cs, prop)
 		},
 	})
+}
+
+// ---------------------------------------------------------------- client side
+
+// The same question for Dial: connection A is dialled (server answers with
+// extension response r1), then connection B with the same DialOptions value
+// (server answers r2); A's parameters and A's compressed exchange are those of
+// A's own response.
+
+type c14IsoCliCase struct {
+	Mode   string `json:"mode"`
+	First  string `json:"first_response"`
+	Second string `json:"second_response"`
+}
+
+var c14IsoResponses = []string{
+	"",
+	"permessage-deflate",
+	"permessage-deflate; client_no_context_takeover",
+	"permessage-deflate; server_no_context_takeover",
+	"permessage-deflate; client_no_context_takeover; server_no_context_takeover",
+}
+
+func c14IsoCliOneP(c *fw.Ctx, cs c14IsoCliCase, prop string) {
+	pc := func(class string) string { return prop + strings.TrimPrefix(class, "C14") }
+	c.Eval()
+	c.AddTraces(1)
+	desc := fmt.Sprintf("client mode %s: connection A dialled (response %q), then connection B with the same options (response %q)", cs.Mode, cs.First, cs.Second)
+	ctx, cancel := context.WithTimeout(context.Background(), 5*time.Second)
+	defer cancel()
+	opts := websocket.DialOptions{CompressionMode: hsMode(cs.Mode)}
+	a := hsDial(ctx, "ws://example.com/", opts, validScript(cs.First), nil)
+	if a.pan != "" {
+		c.Violate(pc("C14/panic/dial"), desc+": "+a.pan, cs)
+		return
+	}
+	if a.conn == nil {
+		// the response is not one this mode can accept (e.g. an extension nobody offered)
+		c.OutcomeStr(fmt.Sprintf("isocli|%s|%s|refused", cs.Mode, cs.First))
+		return
+	}
+	defer a.conn.CloseNow()
+	var valsA []string
+	if cs.First != "" {
+		valsA = []string{cs.First}
+	}
+	_, _, agreedA := hsclient.JudgeExtensions(modeOffer(cs.Mode), valsA)
+	snap := func() string {
+		_, comp, _ := websocket.VerifConnInfo(a.conn)
+		if comp == nil {
+			return "<none>"
+		}
+		return fmt.Sprintf("%+v", *comp)
+	}
+	before := snap()
+	b := hsDial(ctx, "ws://example.com/", opts, validScript(cs.Second), nil)
+	if b.pan != "" {
+		c.Violate(pc("C14/panic/dial"), desc+": "+b.pan, cs)
+		return
+	}
+	if b.conn != nil {
+		defer b.conn.CloseNow()
+	}
+	if after := snap(); before != after {
+		c.Violate(pc("C14/parameters-changed-by-another-handshake/client"), fmt.Sprintf("%s: A's parameters were %s after its own handshake and are %s after B's", desc, before, after), cs)
+		return
+	}
+	for _, f := range exchange(c, ctx, a.conn, a.rt.body, "client", agreedA, "") {
+		c.Violate(pc(f.class+"/after-another-handshake"), desc+": exchange on A: "+f.detail, cs)
+		return
+	}
+	if b.conn != nil {
+		var valsB []string
+		if cs.Second != "" {
+			valsB = []string{cs.Second}
+		}
+		_, _, agreedB := hsclient.JudgeExtensions(modeOffer(cs.Mode), valsB)
+		for _, f := range exchange(c, ctx, b.conn, b.rt.body, "client", agreedB, "") {
+			c.Violate(pc(f.class+"/second-connection"), desc+": exchange on B: "+f.detail, cs)
+			return
+		}
+	}
+	c.OutcomeStr(fmt.Sprintf("isocli|%s|%s|%s|%v", cs.Mode, cs.First, cs.Second, agreedA != nil))
+}
+
+func c14IsoCliCases() []c14IsoCliCase {
+	var cs []c14IsoCliCase
+	for _, m := range hsModes {
+		for _, a := range c14IsoResponses {
+			for _, b := range c14IsoResponses {
+				cs = append(cs, c14IsoCliCase{m, a, b})
+			}
+		}
+	}
+	return cs
+}
+
+func c14IsoCliRegister(prop string) {
+	fw.Register(fw.Part{
+		Prop: prop, Name: "isolation-client",
+		Units: func(tier string) []fw.Unit {
+			return []fw.Unit{{ID: "response-pairs", Run: func(c *fw.Ctx) {
+				if msg := pmdSelfCheck(); msg != "" {
+					c.EngineError(msg)
+					return
+				}
+				cases := c14IsoCliCases()
+				for _, cs := range cases {
+					c14IsoCliOneP(c, cs, prop)
+				}
+				c.AddStates(int64(len(c14IsoResponses) * len(hsModes)))
+				c.AddTransitions(int64(len(cases) * 2))
+				c.Bound("isolation_response_pairs", len(cases))
+				c.Sample(cases[7])
+			}}}
+		},
+		Replay: func(c *fw.Ctx, data json.RawMessage) {
+			var cs c14IsoCliCase
+			if json.Unmarshal(data, &cs) != nil {
+				c.EngineError("bad replay data")
+				return
+			}
+			c14IsoCliOneP(c, cs, prop)
+		},
+	})
+}
+
+func init() {
+	for _, prop := range []string{"C14", "C07"} {
+		c14IsoCliRegister(prop)
+	}
 }
